@@ -357,6 +357,15 @@ def run(ck):
               "every path from `size == 0` to `return Final` passes cursor.advance" if fin and not early else
               "Final can be returned at line %s without the closing CRLF having been consumed" % (early[0].get("l") if early else "?"))
     ck.require(nfin >= 1, "`return Final` not found after the `size == 0` test in Chunk::parse")
+    # ... and those two bytes *are* the CRLF: Final is returned on the edge on which eol() answered true (from the mutation sweep: the
+    # test negated survives the suite, which never parses a chunked message -- every well-formed chunked body is then refused and two
+    # arbitrary bytes are skipped instead)
+    eol_true = lib.result_edges(cp, "Pistache::StreamCursor::eol", True)
+    fins = [e for e in cp.events(("return", "iret")) if e.get("const") == FINAL]
+    okf = bool(eol_true) and bool(fins) and all(any(cfg.edge_dominates(cp, bid, k_, e) for bid, k_ in eol_true) for e in fins)
+    ck.ob("C04-R3", "Chunk::parse/Final-only-behind-a-CRLF", okf, (fins[0].loc if fins else cp.loc), cp,
+          "`return Final` lies on the edge on which cursor.eol() is true" if okf else
+          "Final is returned on a path that does not know the two bytes behind the last-chunk line are CRLF (cursor.eol() true)")
 
     # ---------------- R4: whatever the connection receives goes through its parser ----------------
     ck.rule("C04-R4", "C must-pass-through",
